@@ -13,8 +13,8 @@ from props.c09_util import (RTOL, RTOL_ROUTES, Lib, cmp, dedupe, axis_objects, d
 
 SYM_TOL = 1e-13
 SUM_TOL = 1e-12
-KER_TOL = 1e-10      # |K 1|_max <= KER_TOL * max|K| (unchanged tree: <= 2e-13)
-EIG_MIN = 1e-10      # smallest eigenvalue after diagonal scaling (unchanged tree: see evidence extra.min_scaled_eig)
+KER_TOL = 1e-10      # |K 1|_max <= KER_TOL * max|K| (unchanged tree: <= 3e-15)
+EIG_MIN = 1e-10      # smallest eigenvalue after diagonal scaling (unchanged tree, thorough space: >= 1.6e-8; a missing direction gives ~1e-17)
 DENSE_MAX = 700      # largest matrix dimension for which spectra are computed
 
 MASS_STR = "u * v * dx"
